@@ -51,7 +51,7 @@ CHECKS = {
             'For symbolic k in [1e-3, 1e3]: rate() of PL/BT-full/BT-part is homogeneous of degree 1 and all three predictions of all five models are scale-free; for symbolic shift s with equal team sizes: posterior mu shifts by s, sigma and predictions are unchanged, all five models; listed shapes and outcomes.',
             TRUST, '6/C16'),
     'C17': ('forward-error symbolic execution of the real phi_major source (z3 reals with rounding variables, certified grid enclosures) + symbolic execution of the real v/w/vt/wt with analytic axiom instances (Mills, truncated-mean) per path; sat models replayed against mpmath',
-            'CDF: relative error <= 1e-12 on [-37.5, 38] under the standard model of floating point with 4-ulp libm. v, w, vt, wt for x in [-40,40], t in [1e-8,1e-2]: defined, v >= 0, w >= 0, vt and exact V~ in [-t-x, t-x] (so within 2t), v within 2% of V on its asymptotic branch, guards fire exactly at the documented constants, w <= 1 (Sampford), wt in [0, 1+t^2], v and w are the mathematical V and W above their guard (term identity), |wt - exact W~| <= 20t over the reals, denominators of vt/wt formed without avoidable cancellation. Not claimed: the float part of the 1e-6 / 1e-13/t accuracy clauses, dense sweeps.',
+            'CDF: relative error <= 1e-12 on [-37.5, 38] under the standard model of floating point with 4-ulp libm. v, w, vt, wt for x in [-40,40], t in [1e-8,1e-2]: defined, v >= 0, w >= 0, vt and exact V~ in [-t-x, t-x] (so within 2t), v within 2% of V on its asymptotic branch, guards fire exactly at the documented constants, w <= 1 (Sampford), wt in [0, 1], v and w are the mathematical V and W above their guard (term identity), wt is the exact W~ above its guard (<= 20t on a tree where it is not), denominators of vt/wt formed without avoidable cancellation. Not claimed: the float part of the 1e-6 / 1e-13/t accuracy clauses, dense sweeps.',
             TRUST + ' Mode E assumes the standard FP model without underflow and 4-ulp erf/erfc.', '6/C17'),
     'C18': ('symbolic execution of the real comparison dunders / ordinal() on exact binary64 proxies (z3 QF_FP, RNE) + per-path equivalence with the ordinal specification; foreign operands via lazy kind proxy; sorted() paths',
             'For each of the five rating classes and each of < <= > >= == != over ALL finite doubles mu, sigma: result <=> the corresponding comparison of mu-3*sigma (== : both fields equal); ordinal(z) = mu - z*sigma for symbolic z; foreign operands refused with ValueError / unequal; sorted() of 3 (4) ratings is ordinal-monotone on every path.',
@@ -66,7 +66,7 @@ CHECKS = {
             'For the listed shapes and all mu, sigma, beta, tau, kappa: sole winners never lose mu, sole losers never gain, members move in proportion to their inflated variance; two teams: loss <= draw <= win, prior between loss and win, a draw never favours the stronger team (TM: beyond the draw-margin term); moving up one place never lowers mu (PL, full pairing); identical teams end ordered by place.',
             TRUST, '6/C05'),
     'C06': ('symbolic execution of the real rate() from an arbitrary valid prior state + z3 on the lemma abstraction (range lemmas of every product/quotient/primitive) with fall-back to the full term; function-level lemmas W, W~ >= 0 proved on the real w/wt and applied at call sites after discharging their preconditions',
-            'Inductive step for all histories: from any valid state, on every path of the listed shapes/outcomes/configurations (default and uninterpreted gamma >= 0, limit_sigma on/off) sigma\' > 0, sigma\'^2 <= sigma^2 + tau^2 and sigma\' <= sigma under limit_sigma. TM claimed for draw margins t = kappa/c <= 1e-2.',
+            'Inductive step for all histories: from any valid state, on every path of the listed shapes/outcomes/configurations (default and uninterpreted gamma >= 0, limit_sigma on/off) sigma\' > 0, sigma\'^2 <= sigma^2 + tau^2 and sigma\' <= sigma under limit_sigma. Thurstone-Mosteller for every kappa in (0, 1e-2] at every beta (lemmas W, W~ >= 0 for every draw margin t > 0).',
             TRUST + ' Interval transfer rules of the lemma store (sx/core.py f_add/f_mul/f_inv/f_max, outward rounded) are trusted code.', '6/C06'),
     'C07': ('bounded symbolic execution of the real rate() (sx engine) + z3 QF_NRA per path; sat models replayed on float code',
             'For every model, the listed team shapes and every weak order, z3 shows on every path of the real rate() that the '
